@@ -5,6 +5,6 @@ CONSTANTS
   Resources <- Res
   Globals <- NoGlobals
   Data0 <- D2
-  Styles <- Styles2
+  Styles <- Styles1
 INVARIANTS RefInv ReversalInv CountInv RoundTripInv ExpansionInv Emit
 CHECK_DEADLOCK FALSE
